@@ -193,6 +193,31 @@ def run(chk, repo, tier):
                        f'normalisation factor [{"m = 0" if m_zero else ("m > 0" if case[0] > 0 else "m < 0")}, '
                        f'{"rho given" if none_state(pa, "rho") is False else "default coordinates"}]',
                        ratio == want, f'normalised/un-normalised = {fmt(ratio)}; Noll: {fmt(want)}', f.loc(pa.node))
+    # the rotationally symmetric modes (m = 0, n > 0) are sqrt(n+1) R_n^0(rho): whatever selects sine or cosine for the others
+    # (the sign of m, the parity of the index), with m = 0 no azimuthal factor is left and the mode does not vanish
+    ok0, det0, n0 = None, 'undecided: no path is feasible for m = 0, n > 0', 0
+    m_atom = m_.single_atom()
+    for p in rets:
+        if (0, False) not in cases(p) or not isinstance(p.ret, Poly):
+            continue
+        r0 = nf.subst_value(p.ret, {m_atom: nf.ZERO})
+        trig0 = {a: (nf.ZERO if a[1] == 'sin' else nf.ONE) for a in nf.value_atoms(r0)
+                 if is_app(a, ('sin', 'cos')) and isinstance(a[2][0], Poly) and a[2][0].is_zero()}
+        if trig0:
+            r0 = nf.subst_value(r0, trig0)
+        rc = [a for a in r0.atoms(deep=False) if is_app(a, 'call:zernike.R')] if isinstance(r0, Poly) else []
+        if isinstance(r0, Poly) and not r0.is_zero() and len(rc) != 1:
+            continue            # not of the form factor * R(...) * mask: left to the pairwise comparison
+        n0 += 1
+        left = [a for a in nf.value_atoms(r0) if is_app(a, ('sin', 'cos'))] if isinstance(r0, Poly) else []
+        if not isinstance(r0, Poly) or r0.is_zero() or left:
+            ok0 = False
+            det0 = (f'[{conds_str(p)[:80]}] with m = 0 the mode is {fmt(r0)[:100]}: ' +
+                    ('it vanishes identically' if isinstance(r0, Poly) and r0.is_zero() else 'an azimuthal factor is left'))
+        elif ok0 is None:
+            ok0, det0 = True, ''
+    chk.ob('C11-c', 'N-sibling', f.key, 'rotationally symmetric modes (m = 0, n > 0) are a multiple of R_n^0(rho) * mask on every path',
+           ok0, det0 or f'{n0} path(s)', f.loc())
     if n_pairs < 1:
         raise AnalysisError('zernike: no normalised/un-normalised path pair found')
     for p in given:
